@@ -2079,6 +2079,7 @@ def corr_tx(ctx, runs: List[Tuple[Dict[str, Any], Dict[str, Any]]]) -> None:
     for t in TYPES:
         by_arrow.setdefault(str(real_arrow_type(t)), f"(APrim (arrow_of_type T_{t}))")
     exprs, kept, impl = [], [], []
+    typed_exprs: List[str] = []                      # hypothesis pf_typed of C11_tx_history_filter, per pre-built file
     unmodelled = 0
     for case, res in runs:
         if not res["trace"]:
@@ -2144,6 +2145,9 @@ def corr_tx(ctx, runs: List[Tuple[Dict[str, Any], Dict[str, Any]]]) -> None:
                                 ok = False
                                 foot = "None"
                         rows = "[" + "; ".join("[" + "; ".join(f"({NAME_NUM[k]}%Z, {pyval_to_coq(v)})" for k, v in r.items()) + "]" for r in fo["rows"]) + "]"
+                        if foot.startswith("(Some ") and fo["rows"] and len(typed_exprs) < (150 if ctx.tier == "quick" else 1500):
+                            fl = foot[len("(Some "):-1]
+                            typed_exprs.append(f"forallb (fun row => forallb (fun x => has_kind (colkind {fl} (fst (fst x))) (cell (vrow row) (fst (fst x)))) {fl}) {rows}")
                         k = spec["kind"]
                         claim = fo.get("claim") or (None, None)
                         pfs.append(f"{{| pf_id := {pid}%Z; pf_canonical := {b2c(k != 'noncanonical')}; pf_exists := {b2c(k != 'missing')}; "
@@ -2189,6 +2193,10 @@ def corr_tx(ctx, runs: List[Tuple[Dict[str, Any], Dict[str, Any]]]) -> None:
                         "impl (call tags, snapshots, library files stored, current files, files match, scan ok, handle caches match)": i[k] if k is not None else i,
                         "model": g2[k] if k is not None else g2})
     ctx.correspondence("transactions", len(kept), bad)
+    # pf_typed (hypothesis of C11_tx_history_filter): every cell pyarrow reads from a parquet column has the kind of the
+    # column's footer type -- on the pre-built files of these histories
+    tgot = coqbuild.coq_eval(REQ_P, typed_exprs)
+    ctx.correspondence("pf_typed", len(typed_exprs), [{"file": e[:400]} for e, g in zip(typed_exprs, tgot) if g is not True])
     ctx.stats["tx_corr_transactions"] = ntx
     ctx.stats["tx_corr_cases_with_unmodelled_fault_window"] = unmodelled
 
@@ -2206,7 +2214,8 @@ def run(ctx) -> None:
         "translator/gen_schema.py (literal tables and the signature's shape from the source; other functions pinned by golden AST)",
         "translator/gen_open.py (the actions of create_table / load_table / Table.__init__ from the source, helpers inlined; "
         "_get_current_schema read-only, _arrow_schema_cache touched only by DataFileManager.__init__ / create_arrow_schema: checked, fail-closed)",
-        "hypothesis conv_sound (C11_exact_partial): pyarrow stores an admitted value as Model/Schema.v canon or raises -- validated by the 'conv' correspondence",
+        "hypothesis conv_sound (C11_exact_partial, C11_tx_exact_partial, C11_handles_exact_partial): pyarrow stores an admitted value as Model/Schema.v canon_c or raises -- validated by the 'conv_sound' correspondence",
+        "hypotheses conv_kinds (filter / bounds_true theorems) and pf_typed (C11_tx_history_filter): a cell pyarrow converts / reads from parquet has the kind of its column's Arrow type -- validated by the 'conv_kinds' and 'pf_typed' correspondences",
         "rnd32 = IEEE binary32 round-to-nearest-even (struct.pack('f')), a parameter of canon",
         "harness: harness/props/c11.py, harness/lib/c11_values.py (independent reader, reference judgement `exact`)",
     ]
